@@ -81,7 +81,7 @@ def main():
         if keep:
             kd = os.path.join(V, "seeded", keep)
             os.makedirs(kd, exist_ok=True)
-            for fn in os.listdir(mdir):
+            for fn in ([] if os.path.abspath(kd) == os.path.abspath(mdir) else os.listdir(mdir)):
                 if fn.endswith(".log"):
                     continue
                 src = os.path.join(mdir, fn)
@@ -94,7 +94,12 @@ def main():
                 meta = json.load(open(os.path.join(mdir, "meta.json")))
             except Exception:
                 pass
+            old = meta.get("confirmed_by_owner") or {}
             meta["confirmed_by_owner"] = {k: res.get(k) for k in ("patch_applies", "builds", "suite_passes", "demo_with_patch_fails", "demo_without_patch_passes")}
+            if nosuite and old.get("suite_passes") is not None:
+                # re-run against a newer HEAD without repeating the whole existing suite: keep the earlier confirmation
+                meta["confirmed_by_owner"]["suite_passes"] = old["suite_passes"]
+                meta["suite_confirmed_at_commit"] = meta.get("suite_confirmed_at_commit") or meta.get("base_commit")
             meta["base_commit"] = sh(["git", "-C", "/repo", "rev-parse", "--short", "HEAD"])[1].strip()
             meta["our_checks"] = checks
             meta["detected"] = res["detected"]
